@@ -2781,10 +2781,17 @@ class Partitions(Expr):
         if isinstance(self.frame, Blockwise) and not isinstance(
             self.frame, (BlockwiseIO, Fused, SetIndexBlockwise)
         ):
+            # If every dependency is broadcast (a single-partition frame), there
+            # is no partitioned operand that could carry the selection, select
+            # from all of them; otherwise a selection like [0, 0] is lost
+            all_broadcast = all(
+                self.frame._broadcast_dep(op) for op in self.frame.dependencies()
+            )
             operands = [
                 (
                     Partitions(op, self.partitions)
-                    if (isinstance(op, Expr) and not self.frame._broadcast_dep(op))
+                    if isinstance(op, Expr)
+                    and (all_broadcast or not self.frame._broadcast_dep(op))
                     else op
                 )
                 for op in self.frame.operands
